@@ -17,7 +17,7 @@ RULE = ('generated training sets x relation: TRANSLATION (all 17; data and trans
         'Q not a permutation, j != 0) and the model is not the prior; distinct by canonical case.')
 ASSUMPTIONS = ['tolerances: 1e-9 swaps / scaling / grid translations of tuple learners, 1e-6 closed-form learners and rotations of '
                'tuple learners, 1e-5 iterative point learners; a larger deviation is a violation only if it exceeds 100x the '
-               'deviation caused by one-ulp perturbations of the original data (noise-floor control), otherwise it is counted '
+               'deviation caused by perturbing the original data by one ulp / a relative 1e-10 / 1e-9 (noise-floor control: flat optima make L-BFGS line searches branch on rounding noise), otherwise it is counted '
                'as numerically-sensitive',
                'cases with a neighbour-distance tie (relative gap < 1e-9) are outside the domain for LMNN, LFDA, SCML_Supervised',
                'iterative learners run with few iterations; integer seeds are fixed across the two fits']
@@ -182,16 +182,20 @@ def check_c19(case, stats):
   if dev > tight:
     # noise-floor control: how much do one-ulp perturbations of the ORIGINAL data move the model?
     worst = 0.0
-    for k in range(3):
+    xs = float(np.abs(X).max())
+    for k in range(4):
       prs = np.random.RandomState(case['tseed'] + 1 + k)
-      Xp = np.nextafter(X, np.where(prs.rand(*X.shape) < 0.5, -np.inf, np.inf))
+      if k == 0:
+        Xp = np.nextafter(X, np.where(prs.rand(*X.shape) < 0.5, -np.inf, np.inf))
+      else:
+        Xp = X + prs.randn(*X.shape) * xs * (1e-10 if k % 2 else 1e-9)
       ep = fit(Xp)
       worst = max(worst, float(np.abs(np.asarray(ep.pair_distance(Q)) - d1).max()) / ref)
     if dev > 100 * worst + tight:
       raise Violation('C19/%s/%s' % (rel, name), 'learned distances change by %g relative under %s (tolerance %g, one-ulp control %g); options %r'
                       % (dev, rel, tight, worst, m['opts']))
     cls = 'numerically-sensitive'
-    stats.inconclusive['numerically-sensitive (deviation explained by one-ulp perturbations)'] += 1
+    stats.inconclusive['numerically-sensitive (deviation explained by <=1e-9 relative perturbations of the data)'] += 1
   M1 = e1.get_mahalanobis_matrix()
   not_prior = bool(np.abs(M1 - np.eye(d)).max() > 1e-9)
   stats.case(case, (not ident) and not_prior and cls == 'within-tolerance', [name, 'rel:' + rel, cls,
